@@ -25,7 +25,6 @@ let frame_str (fr : lframe) : string =
   | LCtrl (code, Some n) -> "ctrl " ^ string_of_z code ^ " seq=" ^ string_of_z n
   | LData (seq, from, content) -> "data seq=" ^ string_of_z seq ^ " from=" ^ string_of_n from ^ " content=" ^ string_of_n content
   | LDesc seq -> "desc seq=" ^ string_of_z seq
-  | LPanic -> "PANIC"
 
 let b2s b = if b then "1" else "0"
 let store_str (s : store) : string list =
@@ -93,7 +92,8 @@ let handle (w : string list) : string =
     incr opi;
     let n = n_of_string in
     let o = match kind_s, args with
-      | "sub", [sid] -> LSub (n sid)
+      | "sub", [sid] -> LSub (n sid, false)
+      | "subp", [sid] -> LSub (n sid, true)
       | "leave", [sid; unsub] -> LLeave (n sid, unsub = "1")
       | "pub", [sid; content; noecho] -> LPub (n sid, n content, noecho = "1")
       | "getdata", [sid] -> LGetData (n sid)
